@@ -14,7 +14,7 @@
     [take_positions(negate=True)] is the method both classes share (C03-2). *)
 From CG3 Require Import Lib.PyZ Lib.Val Lib.PySlice Model.View Model.IndelMap Model.Aligned.
 
-Definition dalign := list (Z * list Z).          (* names x rows of array_seqs *)
+Definition dalign := list (name * list Z).          (* names x rows of array_seqs *)
 
 (** [len(self)] = [seq_len] = number of columns *)
 Definition d_len (a : dalign) : Z := match a with [] => 0 | (_, s) :: _ => zlen s end.
@@ -65,13 +65,14 @@ Definition d_take_positions (vr : variant) (k : kind) (a : dalign) (cols : list 
                 else concatR (map (seq_char (snd nr)) cols))
                (fun s => Ok (fst nr, s))) a) d_make.
 
-Definition d_find (n : Z) (a : dalign) : option (list Z) :=
-  match filter (fun nr => fst nr =? n) a with (_, s) :: _ => Some s | [] => None end.
+Definition d_find (n : name) (a : dalign) : option (list Z) :=
+  match filter (fun nr => name_eqb (fst nr) n) a with (_, s) :: _ => Some s | [] => None end.
 
 (** [take_seqs] l.607 *)
-Definition d_take_seqs (a : dalign) (names : list Z) (negate : bool) : res dalign :=
+Definition d_take_seqs (a : dalign) (arg : names_arg) (negate : bool) : res dalign :=
+  let names := norm_names arg in      (* if type(seqs) == str: seqs = [seqs] *)
   if negate then
-    match filter (fun nr => negb (zmem (fst nr) names)) a with
+    match filter (fun nr => negb (nmem (fst nr) names)) a with
     | [] => Err E_None
     | r => d_make r
     end
@@ -105,14 +106,13 @@ Definition d_rc (k : kind) (a : dalign) : res dalign :=
   | _ => d_make (d_map (fun s => map (comp k) (rev s)) a)
   end.
 
-(** [__add__] l.919 *)
-Fixpoint d_zip (a : dalign) (b : dalign) : dalign :=
-  match a, b with
-  | (n, s) :: a', (_, t) :: b' => (n, s ++ t) :: d_zip a' b'
-  | _, _ => []
-  end.
+(** [__add__] l.919: [self.named_seqs[name] + other.named_seqs[name]] for every name of [self] *)
 Definition d_add (a b : dalign) : res dalign :=
-  if negb (zlen a =? zlen b) then Err E_Value else d_make (d_zip a b).
+  if negb (zlen a =? zlen b) then Err E_Value
+  else bind (mapMr (fun nr => match d_find (fst nr) b with
+                              | None => Err E_Value
+                              | Some t => Ok (fst nr, snd nr ++ t)
+                              end) a) d_make.
 
 (** [get_degapped_relative_to] l.4169: boolean mask of the reference row *)
 Fixpoint mask_keep (s : list Z) (mask : list bool) : list Z :=
@@ -120,7 +120,7 @@ Fixpoint mask_keep (s : list Z) (mask : list bool) : list Z :=
   | c :: s', b :: m' => (if b then [c] else []) ++ mask_keep s' m'
   | _, _ => []
   end.
-Definition d_degap_rel (a : dalign) (x : Z) : res dalign :=
+Definition d_degap_rel (a : dalign) (x : name) : res dalign :=
   match d_find x a with
   | None => Err E_Value
   | Some ref => let mask := map (fun c => negb (c =? GAPC)) ref in d_make (d_map (fun s => mask_keep s mask) a)
@@ -149,9 +149,7 @@ Definition d_apply (vr : variant) (k : kind) (a : dalign) (o : aop) : res (kind 
   | OIndex i => keep_kind k (d_getitem_int a i)
   | ORc => keep_kind k (d_rc k a)
   | OAddSelf => keep_kind k (d_add a a)
-  | OAddRows rows =>
-      if negb (zlen rows =? zlen a) then Err E_Value
-      else keep_kind k (bind (d_make (combine (map fst a) rows)) (fun b => d_add a b))
+  | OAddRows other => keep_kind k (bind (d_make other) (fun b => d_add a b))
   | OAddSlices x y x' y' =>
       keep_kind k (bind (d_getitem_slice a (Some x) (Some y) 1) (fun a1 =>
                    bind (d_getitem_slice a (Some x') (Some y') 1) (fun a2 => d_add a1 a2)))
@@ -167,6 +165,9 @@ Definition d_apply (vr : variant) (k : kind) (a : dalign) (o : aop) : res (kind 
       if (0 <=? i) && (i <? n_windows (d_len a) w st) && (0 <? w) && (0 <? st)
       then keep_kind k (d_getitem_slice a (Some (i * st)) (Some (i * st + w)) 1)
       else Err E_None
+  | ORename mp =>
+      (* rename_seqs l.1625 on [Sequence] rows: the same rows under [renamer(name)] *)
+      keep_kind k (d_make (map (fun nr => (rename_of mp (fst nr), snd nr)) a))
   end.
 
 Definition d_keep (vr : variant) (st : kind * dalign) (o : aop) : kind * dalign :=
